@@ -2,7 +2,7 @@
    composition integrator on a fixed 3-body system. It is run under `gdb -batch` against a -O0 -g build of the
    library from the current tree; breakpoints on the operator functions log (operator, argument).
    usage: c01_driver <integrator> <opt1> <opt2> <opt3> <mode:step|unsync> <dt>
-     saba   type  -     -          whfast kernel corrector coordinates     eos phi0 phi1 n      janus order - -   */
+     saba   type  -     -          whfast kernel corrector coordinates(+100: corrector2)     eos phi0 phi1 n      janus order - -   */
 #include <stdio.h>
 #include <stdlib.h>
 #include <string.h>
@@ -24,7 +24,7 @@ int main(int argc, char** argv){
         r->integrator = REB_INTEGRATOR_SABA; r->ri_saba.type = o1; r->ri_saba.safe_mode = !unsync;
     }else if (!strcmp(integ, "whfast")){
         r->integrator = REB_INTEGRATOR_WHFAST; r->ri_whfast.kernel = o1; r->ri_whfast.corrector = o2;
-        r->ri_whfast.coordinates = o3; r->ri_whfast.safe_mode = !unsync;
+        r->ri_whfast.coordinates = o3 % 100; r->ri_whfast.corrector2 = o3 / 100; r->ri_whfast.safe_mode = !unsync;
     }else if (!strcmp(integ, "eos")){
         r->integrator = REB_INTEGRATOR_EOS; r->ri_eos.phi0 = o1; r->ri_eos.phi1 = o2; r->ri_eos.n = o3; r->ri_eos.safe_mode = !unsync;
     }else if (!strcmp(integ, "janus")){
